@@ -34,6 +34,7 @@ PERSISTENT_TARGETS = [
     ('p-poison', 'p_poison', {'poison': [2]}, [1, 2, 3]),
     ('p-slow', 'p_slow', {'d': 0.05}, [1, 2]),
     ('p-big', 'p_poison', {'big': 90000}, [1, 2]),
+    ('p-origin-only', 'p_poison', {'origin_only': [2]}, [1, 2, 3]),
 ]
 UNREBUILDABLE = {'NeedsArgsError', 'OriginOnlyError'}
 BASE_ONLY = {'KeyboardInterrupt', 'SystemExit', 'MyBaseException'}
@@ -190,7 +191,7 @@ class Run:
         landed = C.landed_exc_types(s)
         cause = C.cause(s, raised, returned)
         unreb_result = (c['fn'] == 't_return' and isinstance(c['kwargs'].get('v'), dict) and c['kwargs']['v'].get('$') == 'origin-only'
-                        and bool(returned))
+                        and bool(returned)) or (bool(c['kwargs'].get('origin_only')) and len(returned) >= 2 and lib.base_kind(kind) != 'thread')
         first = self.obs[0]
         for i, rec in enumerate(self.obs):
             for acc in ('is_alive', 'has_error', 'result', 'error'):
